@@ -11,7 +11,7 @@
 (* defect is reported once and the rest of the file is still validated.    *)
 (* When the whole file is consumed the verdict is written to env OUT.      *)
 (***************************************************************************)
-EXTENDS Naturals, Integers, Sequences, SequencesExt, FiniteSets, TLC, Json, IOUtils
+EXTENDS Naturals, Integers, Sequences, FiniteSets, TLC, Json, IOUtils
 
 Rec == ndJsonDeserialize(IOEnv.TRACE)
 
@@ -59,6 +59,6 @@ Finished == l = Len(Rec) + 1
 Report ==
     Finished =>
         JsonSerialize(IOEnv.OUT,
-            [consumed |-> Len(Rec), bad |-> SetToSeq(bad), nbad |-> Cardinality(bad)])
+            [consumed |-> Len(Rec), bad |-> bad, nbad |-> Cardinality(bad)])
 
 =============================================================================
